@@ -37,7 +37,7 @@ def history(rng, n):
         cthr = cs["delegations"]["root"]["threshold"]
         v = cs["version"]
         kind = rng.choice(["honest", "honest", "honest", "rotate", "rotate", "replay", "rollback", "skip", "revoked", "insufficient",
-                           "self-appointed", "raw-sigs", "same-version", "junk", "honest-extra-junk"])
+                           "self-appointed", "raw-sigs", "same-version", "junk", "honest-extra-junk", "superset-self-appointed", "superset-self-appointed"])
         if kind in ("honest", "honest-extra-junk"):
             o = signed_root(rng, ckeys, rng.randint(1, len(ckeys)), v + 1, rng.sample(ckeys, cthr))
             if kind == "honest-extra-junk":
@@ -61,6 +61,12 @@ def history(rng, n):
         elif kind == "self-appointed":
             nk = [gen.key(i) for i in (8, 9)]
             o = signed_root(rng, nk, 1, v + 1, nk)
+        elif kind == "superset-self-appointed":
+            # keeps every current key, adds new ones, signed by enough keys overall but by too few of the *current* ones
+            fresh = [gen.key(i) for i in (8, 9)]
+            nk = ckeys + [k for k in fresh if k not in ckeys]
+            signers = rng.sample(ckeys, max(0, cthr - 1)) + fresh
+            o = signed_root(rng, nk, max(1, min(cthr, len(signers))), v + 1, signers)
         elif kind == "raw-sigs":
             o = signed_root(rng, ckeys, cthr, v + 1, ckeys, gpg=False)
         elif kind == "same-version":
@@ -118,7 +124,12 @@ def run(ck: Check) -> None:
         for lab, v in zip(labels, verdicts):
             ck.count("offer:" + lab + ":" + ("accepted" if v == "OK" else "rejected"))
         got = "L " + ";".join(verdicts) + "|" + str(idx)
-        if got != m:
+        def pattern(x):
+            body, _, last = x[2:].rpartition("|")
+            return [v == "OK" for v in body.split(";")], last
+        if got != m and pattern(got) == pattern(m):
+            ck.benign += 1          # same accepted offers and same final root; only the class of some rejection differs (judged by the oracle below)
+        elif got != m:
             ck.mismatch_total += 1
             ck.mismatch_kinds["chain-verdicts"] = ck.mismatch_kinds.get("chain-verdicts", 0) + 1
             if len(ck.mismatches) < 10:
